@@ -18,7 +18,7 @@ func init() {
 			"(listing-snapshot) every reader of the listings obtains list and set from objectListing/packListing in one locked step (no separate generate-then-read); " +
 			"(notify-publishes-index) the pack writer's Notify callback installed by ObjectStorage publishes s.index[h] and s.packs under muI, every pack writer ObjectStorage hands out carries that callback, and PackWriter.Close calls Notify only for a finished index. " +
 			"(cached-slice-not-handed-out) an exported method of DotGit / ObjectStorage returns a cached slice field (directly, through a local, or through an unexported helper's result; fixpoint over the type's methods) only as a full slice " +
-			"expression s[a:b:b] or a copy, so that a caller's append cannot overwrite the shared listing. Not decided: visibility under every interleaving with other storage instances; the object cache; in-place modification of returned elements.",
+			"expression s[a:b:b] or a copy, so that a caller's append cannot overwrite the shared listing; (cached-slice-not-written-by-callers) the callers of those accessors do not write inside the window either (element assignment, append through x[:0]/x[:n], in-place sort, copy). Not decided: visibility under every interleaving with other storage instances; the object cache; in-place modification of returned elements.",
 		Assumptions: []string{"rename within objects/ is the publication point of loose objects and packs"},
 		Run:         runC18,
 	})
@@ -37,6 +37,8 @@ func runC18(c *Ctx) {
 	nEsc := SharedSliceEscape(c, r0, dotgitShort, "DotGit")
 	nEsc += SharedSliceEscape(c, r0, "storage/filesystem", "ObjectStorage")
 	c.Check(nEsc >= 2, r0, dotgitShort+".DotGit:accessors", 0, itoa(nEsc)+" exported methods that read a cached slice examined")
+	nMut := SharedSliceNotMutatedByCallers(c, "cached-slice-not-written-by-callers", dotgitShort, "DotGit")
+	c.Check(nMut >= 2, "cached-slice-not-written-by-callers", dotgitShort+".DotGit:callers", 0, itoa(nMut)+" call sites that receive a window of a cached listing examined")
 	const r1 = "invalidate-after-publish"
 	dg := p.lookupType(dotgitShort, "DotGit")
 	objMap, packMap := fieldOf(dg, "objectMap"), fieldOf(dg, "packMap")
